@@ -8,7 +8,7 @@ use crate::bus;
 pub const NCHECK: usize = 14;
 pub const CHECK_NAMES: [&str; NCHECK] = [
   "C05: AF", "C05: BC", "C05: DE", "C05: HL", "C05,C06: SP", "C06: PC", "C06: cycles", "C06: length", "C06: block end",
-  "C06,C08: status", "C05,C06: number of bus accesses", "C05,C06: bus access order and content", "C05: register pairs stay within 16 bits",
+  "C06,C08: status", "C05,C06: number of bus accesses", "C05,C06,C18: bus access order and content", "C05: register pairs stay within 16 bits",
   "C06: SP and PC stay within 16 bits" ];
 
 pub struct Outcome { pub ok: [bool; NCHECK], pub detail: [u32; 8] }
@@ -77,7 +77,7 @@ mod harnesses {
         0 => assert!($o.ok[0], "C05: AF"), 1 => assert!($o.ok[1], "C05: BC"), 2 => assert!($o.ok[2], "C05: DE"), 3 => assert!($o.ok[3], "C05: HL"),
         4 => assert!($o.ok[4], "C05,C06: SP"), 5 => assert!($o.ok[5], "C06: PC"), 6 => assert!($o.ok[6], "C06: cycles"), 7 => assert!($o.ok[7], "C06: length"),
         8 => assert!($o.ok[8], "C06: block end"), 9 => assert!($o.ok[9], "C06,C08: status"), 10 => assert!($o.ok[10], "C05,C06: number of bus accesses"),
-        11 => assert!($o.ok[11], "C05,C06: bus access order and content"), 12 => assert!($o.ok[12], "C05: register pairs stay within 16 bits"),
+        11 => assert!($o.ok[11], "C05,C06,C18: bus access order and content"), 12 => assert!($o.ok[12], "C05: register pairs stay within 16 bits"),
         13 => assert!($o.ok[13], "C06: SP and PC stay within 16 bits"),
         _ => { kani::cover!(true, "reachable"); },
       }
